@@ -14,6 +14,12 @@ func VerifDeterminism() {
 	site := v.Param("site")
 	budget := v.Param("budget")
 	sh := zzShapes[v.Param("shape")]
+	if v.Param("comms") == 1 {
+		// commodity names that differ only in case
+		old := zzComms
+		zzComms = []string{"V", "Ab", "AB"}
+		defer func() { zzComms = old }()
+	}
 	mode := 1
 	if sh.cyclic {
 		mode = 0 // concrete prices (products of symbolic prices along alternative paths are not decided in time)
